@@ -14,6 +14,7 @@ from . import _codec_common as cc
 ID = "C06"
 TITLE = "serialize/deserialize round-trip and produce the Specification's wire encoding"
 RULE = (
+    "(Byte arrays are also given as str when their content is valid UTF-8 - texts with multi-byte characters cut / padded to the exact capacity - and UTF-8 arrays as bytes / bytearray.)  "
     "Cases are (type spec, value, flags): composite specs from the recursive G-TYPE strategy (capacities <= 12; 255/256/65535/65536 in "
     "the prefix-boundary part) built with the public constructors, top level struct / union / delimited with and without the delimiter "
     "header; values drawn for the spec: in range (floats exactly representable in the narrow format, specials, NaN, +-inf, +-0), out of "
